@@ -3,7 +3,7 @@
 From Coq Require Import NArith ZArith List Bool Lia String Ascii.
 From SasLexer Require Import Gen.TokenType Gen.ErrorKind Gen.Channel Model.Base Model.Helpers Model.Numeric Model.Core Model.Buffer
      Model.Lexer3 Spec.RefLex Proofs.Generic Proofs.LexGeneric Proofs.Sorted Proofs.LexSorted Proofs.RefLexProofs Proofs.RefLexErrors Proofs.RefLexTiling Proofs.RefLexShape Proofs.RefLexRanges Proofs.RefLexCase Proofs.Tables Proofs.CaseInv
-     Proofs.Lines Proofs.LexLines Proofs.TokLines Proofs.OcBase Proofs.OcWhole Proofs.OcAll.
+     Proofs.Lines Proofs.LexLines Proofs.TokLines Proofs.ErrLines Proofs.OcBase Proofs.OcWhole Proofs.OcAll.
 Import ListNotations.
 Open Scope N_scope.
 
@@ -276,4 +276,19 @@ Proof.
   intros msep src H.
   destruct (lex_lines_macro_free msep src H) as (H1 & H2 & _ & _ & H5).
   exact (lex_token_lines (mkCfg false msep) src H1 H2 H5).
+Qed.
+
+(** C04: [C04_macro_free_error_positions]: line and column of every error on every macro-free text *)
+Lemma mf_C04_macro_free_error_positions : forall (msep : bool) (src : list char),
+  macro_free (body_of src) = true ->
+  let r := lex (mkCfg false msep) src in
+  let '((bb, _), text) := split_bom src in
+  forall e, In e (lr_errors r) ->
+  forall pre rest, text = pre ++ rest -> blen pre + bb = e_byte e ->
+    e_line e = 1 + count_nl pre /\ e_col e = col_of pre 0.
+Proof.
+  intros msep src H. cbv zeta.
+  destruct (lex_lines_macro_free msep src H) as (H1 & H2 & _).
+  pose proof (lex_error_positions (mkCfg false msep) src) as G. cbv zeta in G.
+  destruct (split_bom src) as [[bb bc] text]. exact (G H1 H2).
 Qed.
